@@ -47,6 +47,17 @@ inductive Tiles : Nat → List Entry → Nat → Prop
   | nil (off) : Tiles off [] off
   | cons {e m off stop} : e.lo = off → e.lo ≤ e.hi → Tiles e.hi m stop → Tiles off (e :: m) stop
 
+/-- `SourceMapIndexable<InstructionIndex>::contains` of an entry's target: `Unmodified(i)` contains exactly
+`i`, `Rewritten` contains the indices of its range -/
+def Entry.contains (e : Entry) (t : Nat) : Bool := decide (e.lo ≤ t) && decide (t < e.hi)
+
+/-- `SourceMap::list_sources(&InstructionIndex(t))` (program/source_map.rs:30): the source indices of the
+entries whose target contains `t`, in order -/
+def listSources (m : List Entry) (t : Nat) : List Nat := (m.filter (·.contains t)).map Entry.src
+
+/-- `SourceMap::list_targets(&InstructionIndex(s)).len()`: how many entries have source index `s` -/
+def listTargetsCount (m : List Entry) (s : Nat) : Nat := (m.filter (·.src == s)).length
+
 /-- the one-level unfolding of an instruction, if it is a well-formed selected invocation
 (`gate_sequence_from_instruction` with an empty stack, i.e. without the cycle check) -/
 def unfold? (defs : List (Def K)) (sel : String → Bool) (i : Instr K) : Option (List (Instr K) × String) :=
